@@ -224,6 +224,72 @@ def c03_core():
     return s
 
 
+
+# ---------------------------------------------------------------------------------------------------
+# C04 — check mode and output elision are unobservable
+def c04_core():
+    s = []
+    V = Validate
+
+    def ingredients():
+        return {
+            "filter": lambda: Filter(Any(), 5),
+            "try_map": lambda: TryMap(Any(), 5),
+            "validate": lambda: V(OneOf2(5, 6), 1),
+            "recover": lambda: RecVia(Then(Just(5), Just(6)), To(Any(), 0xFB)),
+            "or_not2": lambda: OrNot(Then(Just(5), Just(6))),
+            "choice_emit": lambda: Or(Then(V(Just(5), 1), Just(6)), V(Any(), 2)),
+        }
+
+    def pairs():
+        # name -> (elided formulation, value-building formulation) as functions of the ingredient X
+        return {
+            "ignore_then": (lambda X: IgnoreThen(X(), Sp(Any())), lambda X: ThenSnd(X(), Sp(Any()))),
+            "then_ignore": (lambda X: ThenIgnore(Sp(Any()), X()), lambda X: ThenFst(Sp(Any()), X())),
+            "ignored": (lambda X: Ignored(X()), lambda X: MapUnit(X())),
+            "to": (lambda X: To(X(), 0x55), lambda X: MapTo(X(), 0x55)),
+            "to_span": (lambda X: ToSpan(Then(X(), OrNot(Just(0)))), lambda X: SpOnly(Then(X(), OrNot(Just(0))))),
+            "to_slice": (lambda X: ToSliceLen(Then(X(), OrNot(Just(0)))), lambda X: SlLen(Then(X(), OrNot(Just(0))))),
+            "delimited_by": (lambda X: Delim(X(), Sp(Any()), X()), lambda X: IgnoreThen(X(), ThenIgnore(Sp(Any()), X()))),
+            "padded_by": (lambda X: Pad(Sp(Just(0)), X()), lambda X: IgnoreThen(X(), ThenIgnore(Sp(Just(0)), X()))),
+            "repeated_unit": (lambda X: RepUnit(X(), P(1), P(2)), lambda X: SlLen(Rep(X(), P(1), P(2)))),
+            "repeated_unit_fast": (lambda X: RepUnit(Then(X(), Just(0)), K(0), INF), lambda X: SlLen(Rep(Then(X(), Just(0)), K(0), INF))),
+            "separated_unit": (lambda X: SepUnit(X(), Just(0), K(0), INF, FP(3), FP(4)), lambda X: SlLen(Sep(X(), Just(0), K(0), INF, FP(3), FP(4)))),
+        }
+
+    ing = ingredients()
+    pr = pairs()
+    quick_pick = {  # one ingredient per pair kind in the every-change tier; every combination in the thorough tier
+        "ignore_then": "validate", "then_ignore": "filter", "ignored": "recover", "to": "try_map", "to_span": "or_not2",
+        "to_slice": "choice_emit", "delimited_by": "validate", "padded_by": "or_not2", "repeated_unit": "validate",
+        "repeated_unit_fast": "choice_emit", "separated_unit": "try_map",
+    }
+    for pn, (fa, fb) in pr.items():
+        for iname, X in ing.items():
+            a = Then(fa(X), Sp(Rest()))
+            b = Then(fb(X), Sp(Rest()))
+            tier = Q if quick_pick[pn] == iname else T
+            pre = "t[1] <= t[2]" if pn == "repeated_unit" else None
+            n = 3
+            s.append(Shape(f"c04_pair_{pn}_{iname}", a, "pair", {"C04": tier}, n=n, mod="pt", node2=b, pre=pre, timeout=900,
+                           aims=f"{pn}: the elided formulation behaves like the value-building one when the elided parser contains {iname}"))
+    # check() vs parse() on grammars with value-dependent ingredients in every position
+    def cm(name, node, tier=Q, n=3, **kw):
+        s.append(Shape(f"c04_check_{name}", node, "check_mode", {"C04": tier}, n=n, mod="pt", timeout=900,
+                       aims="check(x) accepts iff parse(x) accepts and returns the identical error list", **kw))
+
+    cm("choice_emit", rest_after(Or3(Tag(1, Then(V(Just(0), 1), Just(1))), Tag(2, Then(V(Just(2), 2), V(Just(3), 3))), Tag(3, V(Any(), 1)))))
+    cm("filter_try_map", rest_after(Or3(Tag(1, Then(Filter(Any(), 0), Just(1))), Tag(2, TryMap(Then(Any(), Any()), 2)), Tag(3, V(Any(), 1)))))
+    cm("rep_sep", Then(Rep(Then(V(Just(0), 1), Just(1)), K(0), INF), Sep(V(Just(2), 2), Just(3), K(0), INF, FK(False), FP(4))), n=4)
+    cm("lookahead", rest_after(Or(Tag(1, Then(Rewind(V(Just(0), 1)), Then(Not(Just(1)), Any()))), Tag(2, AndIs(V(Any(), 2), NoneOf1(2))))))
+    cm("recover_via", rest_after(Or(Tag(1, Then(RecVia(Then(Just(0), Just(1)), To(Any(), 0xFB)), Just(2))), Tag(2, Sp(Any())))))
+    cm("recover_skip", rest_after(RecSkipRetry(Then(V(Just(0), 1), Just(1)), Any(), Just(2))), n=4)
+    cm("recover_skip_until", rest_after(RecSkipUntil(Then(Just(0), Just(1)), Any(), Just(2))), n=4, tier=T)
+    cm("folds", rest_after(Then(Foldl(V(Just(0), 1), Then(V(Just(1), 2), Just(2))), OrNot(Foldr(Just(3), V(Any(), 3))))), n=4, tier=T)
+    cm("boxed", rest_after(Bx(Or(Bx(Tag(1, Then(V(Just(0), 1), Just(1)))), Bx(Tag(2, Filter(Then(Any(), V(Any(), 2)), 2)))))), tier=T)
+    cm("emptyerr", rest_after(Or(Then(Just(0), TryMap(Any(), 1)), Custom2(2))), tier=T)
+    return s
+
 # ---------------------------------------------------------------------------------------------------
 # C05 — backtracking is atomic for emissions
 def c05_core():
@@ -237,7 +303,7 @@ def c05_core():
         aims="Or: emission inside the abandoned first alternative vanishes; emissions of the taken one stay, in order")
     for form in ("tuple", "vec", "array"):
         add(f"choice_{form}",
-            rest_after(Or3(Tag(1, Then(V(Just(0), 1), Just(1))), Tag(2, Then(V(Just(2), 2), V(Just(3), 3))), Tag(3, V(Any(), 4)), form=form)),
+            rest_after(Or3(Tag(1, Then(V(Just(0), 1), Just(1))), Tag(2, Then(V(Just(2), 2), V(Just(3), 3))), Tag(3, V(Any(), 1)), form=form)),
             aims=f"Choice<{form}>: rewind truncates the emitted-error list after each failed alternative")
     add("rep_collect", rest_after(Rep(Then(V(Just(0), 1), Just(1)), K(0), INF)), n=4,
         aims="Repeated (iterator path): the last, failing iteration emitted before failing")
@@ -267,7 +333,7 @@ def c05_core():
         aims="recover_with: emissions of the failed first attempt vanish; the strategy's stay; then the recovered error")
     add("nested_or_in_rep", rest_after(Rep(Or(Tag(1, Then(V(Just(0), 1), Just(1))), Tag(2, V(Just(0), 2))), K(0), INF)), n=4, tier=T,
         timeout=1200, aims="choice inside repetition")
-    add("or_n4", rest_after(Or(Tag(1, Then(V(Just(0), 1), Then(V(Just(1), 2), Just(2)))), Tag(2, Then(V(Any(), 3), OrNot(V(Just(3), 4)))))), n=4, tier=T,
+    add("or_n4", rest_after(Or(Tag(1, Then(V(Just(0), 1), Then(V(Just(1), 2), Just(2)))), Tag(2, Then(V(Any(), 3), OrNot(V(Just(3), 1)))))), n=4, tier=T,
         timeout=1200)
     add("sep_n5", rest_after(Sep(V(Just(0), 1), V(Just(1), 2), K(0), INF, FP(2), FP(3))), n=5, tier=T, timeout=2400)
     return s
@@ -345,6 +411,7 @@ def families():
         ("c01", "C01", c01_core()),
         ("c02", "C02", c02_core()),
         ("c03", "C03", c03_core()),
+        ("c04", "C04", c04_core()),
         ("c05", "C05", c05_core()),
         ("c06", "C06", c06_core()),
         ("c08", "C08", c08_core()),
